@@ -11,13 +11,13 @@ from vlib import core
 from checks import c13_translate
 
 META = {
-    "claimed": False,
     "harness_bins": ["c13"],
     "extract": "C13.v",
-    "technique": "Coq proofs about executable models of the in-repo codec logic (string escaping of the printer vs. the string-mode lexer automaton, record-key quoting vs. the keyword tables regenerated from the sources on every run, integer emission/reading, YAML plain/quoted scalar resolution); models extracted to OCaml and compared token by token with the Rust code; direct round-trip oracles on the implementation for whole data values, all formats and all loaders",
-    "level_text": "Theorems (coq/Props/C13.v), for every string / key / integer, no bound: the printed literal of any string lexes back to that string (escape_roundtrip; escape is the chain of replaces read from pretty.rs on every run); a record key printed by ident_quoted reads back as the same key given the keyword tables extracted from lexer.rs/grammar.lalrpop at this run (ident_quoted_roundtrip, tables re-checked by coqc); every integer in [-2^63, 2^64) is emitted as its exact decimal token and every loader model maps the token back to it, outside that range the f64 path is taken (int_roundtrip); a quoted YAML scalar is always a string and a plain one is a string iff it is not one of the enumerated spellings (yaml_scalar_resolution), which states the contract the external YAML emitter must meet. The models are tied to the Rust code by running both on the same generated inputs (printed text, lexer result, key, integer token, scalar resolution) and the property itself is checked on the implementation by direct oracles: deserialize(serialize v) == v, export/import/export textual fixpoint, file import, the primops inside the evaluator, the `nickel convert` path (printer + parser) and agreement of all loaders on the same document.",
-    "level_note": "partial: decimals through f64 (try_from_float_simplest, ryu) are NOT proved, only checked exhaustively on the grid of decimals with <= 4 significant digits and exponents -6..6 plus boundaries, as exact rationals. Trusted/assumed: the external emitters and parsers (serde_json, serde_yaml/unsafe-libyaml, toml/toml_edit, saphyr-parser, json_scanner, malachite from_sci_string/to_sci, logos) are not modelled except for the documented readings in Codec/Num.v and Codec/YamlScalar.v, which the correspondence validates; the LALRPOP grammar is represented by the table of reserved words it accepts as field names (extracted from grammar.lalrpop). Known findings are listed in known_findings.txt and reported as KNOWN-FINDING.",
+    "technique": "Coq proofs about executable models of the in-repo codec logic (string escaping of the printer vs. the string-mode lexer automaton, record-key quoting vs. the keyword tables regenerated from the sources on every run, integer emission/reading, YAML plain/quoted scalar resolution incl. the grammar of number spellings, the two JSON loaders over an abstract event stream); models extracted to OCaml and compared token by token with the Rust code; direct round-trip oracles on the implementation for whole data values, all formats and all loaders",
+    "level_text": "Theorems (coq/Props/C13.v), for every string / key / integer / document tree, no bound: the printed literal of any string lexes back to exactly that string (escape_roundtrip; escape IS the chain of replaces read from pretty.rs at this run, escape_char IS the table read from lexer.rs, the regexes the automata were written for are pinned to the source text); a record key printed by ident_quoted reads back as the same key given the keyword tables extracted from lexer.rs/grammar.lalrpop at this run (ident_quoted_roundtrip; keyword_tables_agree is re-checked by coqc against the regenerated tables); every integer in [-2^63, 2^64) is emitted as its exact decimal token and the YAML/JSON event loader, serde_json and toml (i64 part) models map the token back to it, outside that range the f64 path is taken (int_roundtrip); a quoted YAML scalar is always a string and a plain one is a string iff it is not one of the enumerated spellings, the number spellings being exactly the grammar [+-]?(D+|D+.D*|D*.D+)([eE][+-]?D+)? (yaml_plain_resolution, from_sci_grammar), which states the contract the external YAML emitter must meet; the class on which serde_yaml breaks that contract is a Coq definition shown non-empty (yaml_overflow_spelling_is_number); the JSON event loader and the serde path build the same value from the event stream of every in-scope document tree (loaders_agree). The models are tied to the Rust code by running both on the same generated inputs (printed text, lexer result, key, integer token, scalar resolution of the scalar event the loader actually received, loader results per document) and the property itself is checked on the implementation by direct oracles that need no model: deserialize(serialize v) == v through the library functions and through the primops in the evaluator, export/import/export textual fixpoint, file import (SourceCache::parse_other), the `nickel convert` path (loader AST -> printer -> parser -> evaluation), 'YamlDocuments, and agreement of all loaders on the same generated or foreign document.",
+    "level_note": "partial: decimals through f64 (try_from_float_simplest, ryu) are NOT proved, only checked on the grid of decimals with <= 4 significant digits and exponents -6..6 plus boundaries (exhaustive in the thorough tier, sampled in the quick tier), compared as exact rationals; numbers outside the statement's scope are only reported as observations. Trusted/assumed: the external emitters and parsers (serde_json, serde_yaml/unsafe-libyaml, toml/toml_edit, saphyr-parser, json_scanner, malachite from_sci_string/to_sci, logos) are not modelled except for the documented readings in Codec/Num.v and Codec/YamlScalar.v (from_sci) and the longest-match reading of logos in Codec/Escape.v, which the correspondence validates; the LALRPOP grammar is represented by the table of reserved words it accepts as field names (extracted from grammar.lalrpop); nesting deeper than the external parsers' limits (serde_json 128, toml about 80) gives an error, not a wrong value, and is counted, not failed. Known findings (KNOWN-FINDING lines, known_findings.txt): yaml-float-overflow-string, yaml-ls-ps-string, json-duplicate-keys, toml-datetime-deserialize.",
 }
+
 
 def setup_gen():
     """./verif setup: regenerate coq/Gen/Keywords.v from /repo (same code path as run)."""
@@ -247,6 +247,20 @@ def replace_null(v):
     return v
 
 
+def newline_only_docs(v):
+    """'YamlDocuments: a top-level array element that is a string made of newlines only, not the last one"""
+    if "a" not in v:
+        return False
+    xs = v["a"]
+    return any("s" in e and e["s"] and set(e["s"]) == {"\n"} for e in xs[:-1])
+
+
+def replace_newline_docs(v):
+    if "a" not in v:
+        return v
+    return {"a": [{"s": "nl"} if ("s" in e and e["s"] and set(e["s"]) == {"\n"}) else e for e in v["a"]]}
+
+
 def replace_lsps(v):
     (k, x), = v.items()
     f = lambda t: t.replace("\u2028", "x").replace("\u2029", "x")
@@ -400,6 +414,7 @@ class Classifier:
 KNOWN_TEXT = {
     "yaml-float-overflow-string": "YAML only: a string spelled as a number whose magnitude reaches the f64 rounding threshold (\"1e400\") is written as a plain scalar by the emitter and read back as a Number (the loader reads big plain numbers on purpose)",
     "yaml-ls-ps-string": "YAML only: a string or key containing U+2028/U+2029 comes back with spaces inserted after them (the YAML 1.1 emitter breaks the line there and indents, the YAML 1.2 loader keeps both)",
+    "yamldocs-newlines-string": "'YamlDocuments only: an array element that is a string made of newlines only and is followed by another element is exported as a top-level block scalar `|2+` directly followed by `---`, which the YAML loader rejects (wrongly indented line in block scalar)",
     "json-duplicate-keys": "a JSON object with a duplicate key is read differently by the two JSON loaders: std.deserialize 'Json (serde) keeps the last value, importing the file (event loader) keeps both definitions and merges them (error for different scalars)",
     "toml-datetime-deserialize": "std.deserialize 'Toml turns a TOML datetime into the record { \"$__toml_private_datetime\" = \"..\" } (the toml crate's private serde representation) while importing the same file gives the string",
 }
@@ -762,6 +777,7 @@ def check_yaml_scalars(ck, R, rng, quick, strs):
         keep.append((s, case, x, st, v))
     b = R.model_only(mcases)
     cache = {}
+    lsps_retry = []
     for (s, case, x, st, v), y in zip(keep, b):
         ck.case(key=case, nontrivial=True)
         ck.hist("emitted_style", st)
@@ -775,6 +791,8 @@ def check_yaml_scalars(ck, R, rng, quick, strs):
                 ck.hist("emitter_contract_breach", "yaml-ls-ps-string")
                 ck.violation("yaml-ls-ps-string", KNOWN_TEXT["yaml-ls-ps-string"],
                              {"case": case, "string": s, "impl": x, "nickel": "std.deserialize 'Yaml (std.serialize 'Yaml %s)" % json.dumps(s)})
+            elif has_lsps(s):
+                lsps_retry.append((s, case, x))
             else:
                 ck.violation("yaml-emit-text:" + first_bad_char(s), "the YAML emitter wrote a scalar whose content is not the string",
                              {"case": case, "string": s, "impl": x})
@@ -792,6 +810,18 @@ def check_yaml_scalars(ck, R, rng, quick, strs):
                          (": the emitter writes it as a plain scalar that the loader reads as a non-string" if st == "plain" else "")),
                          {"case": case, "string": s, "impl": x, "model": y,
                           "nickel": "std.deserialize 'Yaml (std.serialize 'Yaml %s)" % json.dumps(s)})
+
+    if lsps_retry:
+        # the same strings without U+2028/U+2029 must survive; then the failure is the known one
+        c2 = ["emit\t" + cps(s.replace("\u2028", "x").replace("\u2029", "x")) for s, _, _ in lsps_retry]
+        for (s, case, x), x2 in zip(lsps_retry, R.impl_only(c2)):
+            s2 = s.replace("\u2028", "x").replace("\u2029", "x")
+            if fields(x2).get("R") == "S:" + cps(s2):
+                ck.hist("emitter_contract_breach", "yaml-ls-ps-string")
+                ck.violation("yaml-ls-ps-string", KNOWN_TEXT["yaml-ls-ps-string"], {"case": case, "string": s, "impl": x})
+            else:
+                ck.violation("yaml-emit-text:" + first_bad_char(s), "the YAML emitter wrote a scalar whose content is not the string",
+                             {"case": case, "string": s, "impl": x, "without_ls_ps": x2})
 
     def model_ys(s):
         if s not in cache:
@@ -870,9 +900,11 @@ def check_values(ck, R, rng, quick, tables, clf, corpus):
                 if key:
                     keys_here.add(key)
                 fails.append((o, r, key))
-            if fmt == "yaml" and any(key is None and r.startswith("ERR(") and o in ("des", "imp", "ev", "conv", "docs") for o, r, key in fails) and any(has_lsps(t) for t in ("deep" not in spec and spec_strings(spec) or [])):
-                for o, r, key in fails:
-                    recheck.append((spec, case, fmt, o, r))
+            if fmt == "yaml" and any(key is None and o in ("des", "imp", "ev", "conv", "docs") for o, r, key in fails) and "deep" not in spec \
+                    and (any(has_lsps(t) for t in spec_strings(spec)) or newline_only_docs(spec)):
+                # a YAML failure that the payload alone does not explain, on a value with U+2028/U+2029 or a
+                # newline-only document: decided by running the oracles again on the value without them
+                recheck.append((spec, case, fails))
                 continue
             for o, r, key in fails:
                 if key is None and o in ("fix", "evser") and keys_here:
@@ -886,23 +918,37 @@ def check_values(ck, R, rng, quick, tables, clf, corpus):
                     ck.violation(key, KNOWN_TEXT[key], replay)
                 else:
                     ck.violation("roundtrip:%s.%s:%s" % (fmt, o, r[:40]), "round trip through %s fails (%s)" % (fmt, o), replay)
-    # second pass: is U+2028/U+2029 the only reason?  replace them and run the oracles again
+    # second pass: are U+2028/U+2029 (and, for 'YamlDocuments, newline-only documents) the only reason?
     if recheck:
-        uniq = {}
-        for spec, case, fmt, o, r in recheck:
-            uniq.setdefault(case, spec)
-        c2 = ["val\t" + json.dumps(replace_lsps(sp), ensure_ascii=True, separators=(",", ":")) for sp in uniq.values()]
-        a2 = dict(zip(uniq.keys(), R.impl_only(c2)))
-        for spec, case, fmt, o, r in recheck:
-            per2 = dict(f.split("=", 1) for f in a2[case].split("\t") if "=" in f)
-            clean = all(per2.get("yaml." + oo, "ok") == "ok" or clf.classify("yaml", oo, per2["yaml." + oo][per2["yaml." + oo].index("(") + 1:-1] if "(" in per2["yaml." + oo] else "") for oo in ("des", "imp", "ev", "conv", "docs"))
-            nfail += 1
-            replay = {"case": case + "\tdetail", "format": fmt, "oracle": o, "result": r[:400]}
-            if clean:
-                ck.count("yaml_error_attributed_to_ls_ps")
-                ck.violation("yaml-ls-ps-string", KNOWN_TEXT["yaml-ls-ps-string"], replay)
-            else:
-                ck.violation("roundtrip:%s.%s:%s" % (fmt, o, r[:40]), "round trip through %s fails (%s)" % (fmt, o), replay)
+        def yaml_results(spec2s):
+            c2 = ["val\t" + json.dumps(sp, ensure_ascii=True, separators=(",", ":")) for sp in spec2s]
+            return [dict(f.split("=", 1) for f in x2.split("\t") if "=" in f) for x2 in R.impl_only(c2)]
+
+        def good(per2, o):
+            r2 = per2.get("yaml." + o, "ok")
+            return r2 == "ok" or (r2.startswith("DIFF(") and clf.classify("yaml", o, r2[5:-1]) is not None)
+        t1 = [replace_lsps(sp) for sp, _, _ in recheck]
+        r1 = yaml_results(t1)
+        t2 = [replace_newline_docs(sp) for sp in t1]
+        r2 = yaml_results(t2)
+        for (spec, case, fails), p1, p2, sp1 in zip(recheck, r1, r2, t1):
+            lsps = any(has_lsps(t) for t in spec_strings(spec))
+            for o, r, key in fails:
+                nfail += 1
+                replay = {"case": case + "\tdetail", "format": "yaml", "oracle": o, "result": r[:400]}
+                if key is None and o in ("fix", "evser"):
+                    o_eff = "des"
+                else:
+                    o_eff = o
+                if key is None and lsps and good(p1, o_eff):
+                    key = "yaml-ls-ps-string"
+                    ck.count("yaml_failure_attributed_to_ls_ps")
+                elif key is None and o == "docs" and newline_only_docs(sp1) and good(p2, "docs"):
+                    key = "yamldocs-newlines-string"
+                if key:
+                    ck.violation(key, KNOWN_TEXT[key], replay)
+                else:
+                    ck.violation("roundtrip:yaml.%s:%s" % (o, r[:40]), "round trip through yaml fails (%s)" % o, replay)
     ck.count("value_cases", len(cases))
     ck.count("value_oracle_failures", nfail)
     ck.sample({"kind": "val", "case": cases[1][:300], "impl": a[1][:400]})
@@ -1321,7 +1367,12 @@ def check_documents(ck, R, rng, quick, clf, corpus):
         t2 = text[:i] + text[i + 1:] if m == 0 else (text[:i] + rng.choice(list("\"\\{}[],:=.-+e0\n'#")) + text[i:] if m == 1 else
                                                      (text[:i] + text[i:i + 3] + text[i:] if m == 2 else text[:i]))
         docs.append((fmt, t2, None, False))
-    docs = [d for d in docs if not any(0xD800 <= ord(c) <= 0xDFFF for c in d[1])]
+    import re
+    # a number token with a huge exponent makes the event loader compute 10^e exactly (unbounded memory):
+    # outside this property, reported in the notes; never generated
+    huge = re.compile(r"[0-9.][eE][+-]?[0-9]{5,}")
+    ck.count("documents_dropped_for_huge_exponent", len([d for d in docs if huge.search(d[1])]))
+    docs = [d for d in docs if not any(0xD800 <= ord(c) <= 0xDFFF for c in d[1]) and not huge.search(d[1])]
     cases = ["doc\t%s\t%s" % (fmt, cps(t)) for fmt, t, v, ins in docs]
     a = R.impl_only(cases)
     # the event-level models on every JSON document that is valid JSON
